@@ -439,7 +439,8 @@ def forward_winpath(n, o: Outcome):
                 o.violate("fwd:winpath:host-value", {"path": val, "text": t, "value": c.value})
             elif c.type == "network.ip" and R.inet_aton_ref(t) != c.value:
                 o.violate("fwd:winpath:host-value", {"path": val, "text": t, "value": c.value})
-        else:
+        elif c.type in ("filename", "executable.filename", "executable.library.filename"):
+            # (other children, e.g. a shell.cmd or keyword hit the engine nested under an undecoded path, are not path parts)
             last = re.sub(rb"^[A-Za-z]:", b"", val.rsplit(b"\\", 1)[-1])  # a drive is not part of the file name
             if t != last or c.value != last or c.end != len(val):
                 o.violate("fwd:winpath:filename", {"path": val, "text": t, "value": c.value})
